@@ -456,6 +456,7 @@ type Decl struct {
 	Params  []Param // specfun, lemma
 	RetTyp  string  // specfun
 	Rec     bool
+	Abstract bool
 	Body    Expr
 	BodyTxt string
 	Attr    string // type: "invariant"/"immutable"; global: discipline
@@ -502,7 +503,7 @@ func (d *Decl) First(kind string) string {
 var declKeywords = map[string]bool{"func": true, "extern": true, "spec": true, "axiom": true, "lemma": true, "type": true, "global": true, "table": true, "ghost": true, "functype": true}
 var clauseKeywords = map[string]bool{"property": true, "enc": true, "requires": true, "ensures": true, "modifies": true, "onk": true, "nok": true,
 	"calls": true, "at-call": true, "bind": true, "let": true, "loop": true, "wraps": true, "lossy": true, "nowrap": true, "bounded": true,
-	"trusted": true, "inline": true, "havoc": true, "claim": true, "param": true, "pure": true, "reads": true, "noinline": true, "kont": true,
+	"trusted": true, "inline": true, "at-event": true, "havoc": true, "claim": true, "param": true, "pure": true, "reads": true, "noinline": true, "kont": true,
 	"assume-call": true, "ghost-set": true, "decreases": true, "nosafety": true, "safety": true, "note": true, "unfold": true, "fresh": true, "hint": true}
 
 var exprClauses = map[string]bool{"requires": true, "ensures": true, "onk": true, "nok": true, "claim": true}
@@ -560,10 +561,11 @@ func ParseContractFile(path string) ([]*Decl, error) {
 			case "spec":
 				d.Kind = "specfun"
 				f := strings.Fields(rest)
-				if len(f) < 2 || (f[0] != "fun" && f[0] != "rec") {
-					return nil, fmt.Errorf("%s:%d: expected 'spec fun' or 'spec rec'", path, ln+1)
+				if len(f) < 2 || (f[0] != "fun" && f[0] != "rec" && f[0] != "abstract") {
+					return nil, fmt.Errorf("%s:%d: expected 'spec fun', 'spec rec' or 'spec abstract'", path, ln+1)
 				}
 				d.Rec = f[0] == "rec"
+				d.Abstract = f[0] == "abstract"
 				sig := strings.TrimSpace(rest[len(f[0]):])
 				eq := strings.Index(sig, "=")
 				// find the '=' that follows the closing paren and return type
@@ -573,7 +575,11 @@ func ParseContractFile(path string) ([]*Decl, error) {
 				}
 				eq = strings.Index(sig[par:], "=")
 				if eq < 0 {
-					return nil, fmt.Errorf("%s:%d: spec fun needs '='", path, ln+1)
+					if !d.Abstract {
+						return nil, fmt.Errorf("%s:%d: spec fun needs '='", path, ln+1)
+					}
+					sig += " ="
+					eq = len(sig) - 1 - par
 				}
 				eq += par
 				head, body := sig[:eq], sig[eq+1:]
@@ -596,9 +602,7 @@ func ParseContractFile(path string) ([]*Decl, error) {
 				specBody.WriteString(body)
 				dd := d
 				sb := specBody
-				flushOld := flush
-				_ = flushOld
-				flush = func() { dd.BodyTxt = sb.String(); flush = func() {} }
+				flush = func() { dd.BodyTxt = strings.TrimSpace(sb.String()); flush = func() {} }
 			case "axiom", "lemma":
 				d.Kind = first
 				lab, body := splitLabel(rest)
